@@ -10,13 +10,10 @@ PROP = 19
 KIND_CODE = {"protocluster": 0, "candidatecluster": 1, "subregion": 2}
 FN_NAME = {1: "pack", 2: "build_area_rows", 3: "js.convert_regions"}
 
-# finding classes of this property (entries must exist in known_findings.json with status "known"
-# for a failing case of the class to be reported as KNOWN-FINDING instead of VIOLATION).
-# The classes candidate_end_unshifted (F34) and core_side_heuristic (F44) were repaired in the code:
-# they are not suppressed any more, their witnesses are in the regression corpus (corpus_scenes).
-CLASS_ASSERT = "area_assert_cross_origin"
-CLASS_GENE_GAP = "gene_across_region_gap"
-CLASS_GENE_LONG = "gene_long_way_round"
+# finding classes of this property: none is open.  candidate_end_unshifted (F34), core_side_heuristic (F44),
+# area_assert_cross_origin (F34b), gene_across_region_gap (F45) and gene_long_way_round (C19-K3) were repaired in
+# the code: nothing is suppressed, a failing case of these classes is a VIOLATION, their witnesses are in the
+# regression corpus (corpus_scenes).
 
 
 # ---------------------------------------------------------------- encoding
@@ -210,14 +207,14 @@ class Gen:
                     parts.reverse()
                 if rng.random() < 0.15:
                     # exons listed against the direction of the strand: location_bridges_origin is True, the gene
-                    # runs the long way round the ring (finding gene_long_way_round in an ordinary region,
+                    # runs the long way round the ring (repaired finding gene_long_way_round in an ordinary region,
                     # gene_across_region_gap in an origin-crossing one)
                     parts.reverse()
                 location = CL(parts)
             elif rng.random() < 0.3 and len(location.parts) == 2:
                 # a third exon for an origin-crossing gene, before its first or after its last exon (in the
                 # direction of the strand); it may land on the far side of the gap that an origin-crossing
-                # region leaves on the ring (finding gene_across_region_gap)
+                # region leaves on the ring (repaired finding gene_across_region_gap)
                 FL, CL = secmet()
                 parts = sorted(location.parts, key=lambda part: -int(part.start))   # [s, N) then [0, e)
                 tail_end, head_start = int(parts[1].end), int(parts[0].start)
@@ -285,9 +282,7 @@ class Gen:
             else:
                 # both neighbourhoods clipped to the ends of the window (a short contig, or a whole ring):
                 # two protoclusters of one product far apart share the extent
-                extent = (base, base + width)
-                if width == scene.length and base % scene.length:
-                    extent = (base, base + width - 1)    # not the whole ring [s,N)+[0,s): finding F34b, kept rare
+                extent = (base, base + width)    # also the whole ring at an offset, [s,N)+[0,s)
                 span = extent[1] - extent[0]
                 first = self.extent(extent[0], max(1, span // 3), 1)
                 second = self.extent(extent[1] - max(1, span // 3), max(1, span // 3), 1)
@@ -370,7 +365,9 @@ def corpus_scenes(gen):
     """ regression corpus for fn2/fn3: the witnesses of the repaired defects core_side_heuristic (F44:
         origin-crossing protocluster whose core lies before / after the origin, in an origin-crossing and in
         a whole-record region) and candidate_end_unshifted (F34: origin-crossing candidate cluster whose core
-        does not cross the origin, unsplit and split).  Returns [(scene, [region])] """
+        does not cross the origin, unsplit and split), gene_long_way_round (C19-K3), gene_across_region_gap (F45, both
+        shapes) and area_assert_cross_origin (F34b: areas covering the whole ring at an offset, in the origin-crossing
+        and in the whole-record region).  Returns [(scene, [region])] """
     from antismash.common.secmet.features import Protocluster, SubRegion, Region
     from antismash.common.secmet.features.candidate_cluster import CandidateClusterKind
 
@@ -405,6 +402,33 @@ def corpus_scenes(gen):
     scene.subs = [SubRegion(mkloc(10, 39, 30), tool=scene.tool(), label="s1")]
     scene.genes = [DummyCDS(location=CL([FL(7, 9, 1), FL(10, 11, 1)]), locus_tag="g0")]
     out.append((scene, [Region([], list(scene.subs))]))
+    # gene_across_region_gap, second shape: an origin-crossing gene with a further exon on the far side of the gap
+    # (region [900,1000)+[0,30) on a ring of 1000), next to ordinary genes on both sides of the origin
+    scene = Scene(1000, True)
+    scene.subs = [SubRegion(mkloc(900, 1030, 1000), tool=scene.tool(), label="s1")]
+    scene.genes = [DummyCDS(location=CL([FL(10, 20, 1), FL(950, 1000, 1), FL(0, 5, 1)]), locus_tag="g0"),
+                   DummyCDS(location=CL([FL(990, 1000, 1), FL(0, 5, 1)]), locus_tag="g1"),
+                   DummyCDS(location=FL(3, 9, -1), locus_tag="g2"), DummyCDS(location=FL(905, 909, 1), locus_tag="g3"),
+                   DummyCDS(location=CL([FL(5, 6, 1), FL(2, 4, 1)]), locus_tag="g4")]
+    out.append((scene, [Region([], list(scene.subs))]))
+    # area_assert_cross_origin (F34b): sub-region [40,100)+[0,40) on a ring of 100 (start == end), as the whole of an
+    # origin-crossing region, and inside the whole-record region [0,100)
+    scene = Scene(100, True)
+    scene.subs = [SubRegion(mkloc(40, 140, 100), tool=scene.tool(), label="s1")]
+    scene.genes = [DummyCDS(location=FL(3, 9, -1), locus_tag="g0")]
+    out.append((scene, [Region([], list(scene.subs))]))
+    scene = Scene(100, True)
+    scene.subs = [SubRegion(mkloc(40, 140, 100), tool=scene.tool(), label="s1"),
+                  SubRegion(mkloc(0, 100, 100), tool=scene.tool(), label="s2")]
+    out.append((scene, [Region([], list(scene.subs))]))
+    # F34b: protoclusters over the whole ring at an offset - core before the origin, core after it, core crossing it,
+    # and a core that is itself the whole ring (core_start == core_end) - in a candidate cluster of the same extent
+    scene = Scene(100, True)
+    scene.protos = [proto(scene, core, (40, 140), 100, f"p{i + 10:04d}")
+                    for i, core in enumerate([(50, 60), (110, 120), (90, 115), (40, 140)])]
+    cand = gen.Cand(CandidateClusterKind.INTERLEAVED, list(scene.protos), circular_wrap_point=100)
+    cand.number = 1
+    out.append((scene, [Region([cand], [])]))
     for length, protos, whole in layouts:
         scene = Scene(length, True)
         scene.protos = [proto(scene, core, extent, length, f"p{i + 10:04d}") for i, (core, extent) in enumerate(protos)]
@@ -706,8 +730,7 @@ def known_classes():
 
 
 def judge_spec(chk, flat, impl_out, verdict, known, describe):
-    """ verdict of spec_areas (+ spec_orfs, class_gene_gap, class_gene_long_way):
-        [all e d c ch chc identity pairwise (orfs gene_gap gene_long_way)] """
+    """ verdict of spec_areas (+ spec_orfs): [all e d c ch chc identity pairwise (orfs)] """
     if verdict == [-999]:
         chk.violation("broken-correspondence", "specification could not decode the implementation output",
                       {"theorem_or_correspondence": "spec decoding", "flat": flat, "implementation": impl_out})
@@ -734,14 +757,7 @@ def judge_spec(chk, flat, impl_out, verdict, known, describe):
     if not pairwise:
         failures.append("halves are not linked pairwise: a group value occurs on other than exactly two areas")
     if not orfs_ok:
-        if len(verdict) > 9 and verdict[9] and CLASS_GENE_GAP in known:
-            chk.count("known_" + CLASS_GENE_GAP)
-            chk.known(known[CLASS_GENE_GAP]["what_fails"])
-        elif len(verdict) > 10 and verdict[10] and CLASS_GENE_LONG in known:
-            chk.count("known_" + CLASS_GENE_LONG)
-            chk.known(known[CLASS_GENE_LONG]["what_fails"])
-        else:
-            failures.append("a gene lies outside the announced range")
+        failures.append("a gene lies outside the announced range")
     if not chain:
         failures.append("a protocluster core (or sub-region start/end) lies outside its extent")
     if not chain_cand:
@@ -750,7 +766,7 @@ def judge_spec(chk, flat, impl_out, verdict, known, describe):
         chk.violation("counterexample", f"{FN_NAME[fn]}: " + "; ".join(failures),
                       {"theorem_or_correspondence": "C19_build_chain_in_range / C19_in_range_core / C19_pack_no_overlap / "
                                                     "C19_pack_complete / C19_region_drawn_exactly_once / "
-                                                    "C19_groups_linked_pairwise",
+                                                    "C19_groups_linked_pairwise / C19_genes_in_range",
                        "function": FN_NAME[fn], "flat": flat, "implementation": impl_out, "spec_verdict": verdict,
                        "input": describe})
 
@@ -831,6 +847,9 @@ def run(chk):
                 chk.count("children_order_" + gen.order)
             if crossing_meets_occupied_row(region):
                 chk.count("origin_crossing_area_meets_row_with_2+_occupants")
+            if any(len(f.location.parts) == 2 and f.location.parts[0].start == f.location.parts[1].end
+                   for f in list(region.subregions) + list(region.candidate_clusters) + protocluster_set_order(region)):
+                chk.count("region_with_area_covering_the_whole_ring_at_an_offset")   # repaired class F34b
             desc = describe_region(region, scene.length, scene.circular)
             out = impl_build(region, scene.length, scene.circular)
             add([PROP, 2] + payload, out, out[0] == 0 and out[1] >= 2, desc)
@@ -846,6 +865,10 @@ def run(chk):
                     chk.count("region_with_origin_spanning_gene")
                 if any(g.crosses_origin() and len(g.location.parts) == 3 for g in genes):
                     chk.count("region_with_three_exon_origin_spanning_gene")
+                if converted[index][0] == 0 and any(converted[index][7:4 + 4 * converted[index][3]:4]):
+                    # a gene drawn as two linked halves: expected in whole-record regions; in an origin-crossing region
+                    # it is the repaired class F45, in any other region the repaired class C19-K3
+                    chk.count(f"region_{shape}_with_gene_in_two_halves")
                 desc3 = describe_region(region, scene.length, scene.circular, genes)
                 add([PROP, 3] + payload + gflat, converted[index], converted[index][0] == 0 and len(genes) >= 1, desc3)
 
@@ -859,14 +882,10 @@ def run(chk):
     for flat, out, verdict, desc in zip(cases, impl_outs, verdicts, descs):
         if out[0] == 1 and flat[1] in (2, 3):
             # the layout data of the region is not produced at all
-            if out[1] == common.ERR["AssertionError"] and CLASS_ASSERT in known:
-                chk.count("known_" + CLASS_ASSERT)
-                chk.known(known[CLASS_ASSERT]["what_fails"])
-            else:
-                chk.violation("counterexample", f"{FN_NAME[flat[1]]} raises {common.ERR_NAME.get(out[1], out[1])}: "
-                              "the areas of the region are not drawn",
-                              {"theorem_or_correspondence": "C19_pack_complete", "function": FN_NAME[flat[1]], "flat": flat,
-                               "implementation": out, "input": desc})
+            chk.violation("counterexample", f"{FN_NAME[flat[1]]} raises {common.ERR_NAME.get(out[1], out[1])}: "
+                          "the areas of the region are not drawn",
+                          {"theorem_or_correspondence": "C19_pack_complete", "function": FN_NAME[flat[1]], "flat": flat,
+                           "implementation": out, "input": desc})
             continue
         if verdict and verdict[0] == 1 and (len(verdict) < 9 or verdict[8] == 1):
             continue
